@@ -1337,17 +1337,150 @@ func rC07NormalIsLong(w *World, r *Report) {
 			return true
 		})
 	}
-	if longBody == nil || normalBody == nil {
-		ru.Undecided("branches", w.Pos(fn.Pos()), fmt.Sprintf("long-option branch found=%v, Normal-mode branch found=%v", longBody != nil, normalBody != nil))
+	astWhy := ""
+	if longBody != nil && normalBody != nil {
+		a := canonicalStmts(w.Fset, info, longBody)
+		b := canonicalStmts(w.Fset, info, normalBody)
+		if a == b {
+			ru.OK("long-vs-normal", w.Pos(decl.Pos()), fmt.Sprintf("both branches are the same %d-line computation", strings.Count(a, "\n")+1))
+			return
+		}
+		astWhy = "the Normal-mode single-dash branch differs from the long-option branch:\n--- long\n" + a + "\n--- normal\n" + b
+	} else {
+		astWhy = fmt.Sprintf("long-option branch found=%v, Normal-mode branch found=%v in the syntax", longBody != nil, normalBody != nil)
+	}
+	// decide on the intermediate representation: the code executed only for `--`/`/` tokens and the code executed
+	// only in Normal mode must be the same computation (ssaiso.go)
+	lb, nb, why := isOptionBranchEntries(w, fn)
+	if lb == nil || nb == nil {
+		if longBody != nil && normalBody != nil {
+			ru.Bad("long-vs-normal", w.Pos(decl.Pos()), astWhy+"\n(intermediate representation: "+why+")")
+		} else {
+			ru.Undecided("branches", w.Pos(fn.Pos()), astWhy+"; "+why)
+		}
 		return
 	}
-	a := canonicalStmts(w.Fset, info, longBody)
-	b := canonicalStmts(w.Fset, info, normalBody)
-	if a == b {
-		ru.OK("long-vs-normal", w.Pos(decl.Pos()), fmt.Sprintf("both branches are the same %d-line computation", strings.Count(a, "\n")+1))
+	if same, detail := regionIso(lb, nb); same {
+		ru.OK("long-vs-normal", w.Pos(decl.Pos()), "the long-option code and the Normal-mode code are the same computation: "+detail)
 	} else {
-		ru.Bad("long-vs-normal", w.Pos(decl.Pos()), "the Normal-mode single-dash branch differs from the long-option branch:\n--- long\n"+a+"\n--- normal\n"+b)
+		ru.Bad("long-vs-normal", w.Pos(decl.Pos()), astWhy+"\n(intermediate representation: "+detail+")")
 	}
+}
+
+// isOptionBranchEntries locates, in the splitter, the entry block of the code executed only when the token starts
+// with `--` (or `/`) and the entry block of the code executed only in Normal mode for single-dash tokens.
+func isOptionBranchEntries(w *World, fn *ssa.Function) (long, normal *ssa.BasicBlock, why string) {
+	ig := buildIG(fn)
+	blocksOf := func(seen []bool) map[*ssa.BasicBlock]bool {
+		out := map[*ssa.BasicBlock]bool{}
+		for i, s := range seen {
+			if s {
+				out[ig.instrs[i].Block()] = true
+			}
+		}
+		return out
+	}
+	// tests of the prefix group against constants
+	var trueStarts, falseStarts []int
+	isTestBlock := map[*ssa.BasicBlock]bool{}
+	type test struct {
+		iff *ssa.If
+		pos bool
+	}
+	var tests []test
+	for _, b := range fn.Blocks {
+		if len(b.Instrs) == 0 {
+			continue
+		}
+		iff, ok := b.Instrs[len(b.Instrs)-1].(*ssa.If)
+		if !ok {
+			continue
+		}
+		bo, ok := iff.Cond.(*ssa.BinOp)
+		if !ok || (bo.Op != token.EQL && bo.Op != token.NEQ) {
+			continue
+		}
+		x, y := bo.X, bo.Y
+		if _, isC := constString(x); isC {
+			x, y = y, x
+		}
+		if _, isC := constString(y); !isC || !isSubmatchElem(x, 1) {
+			continue
+		}
+		isTestBlock[b] = true
+		tests = append(tests, test{iff, bo.Op == token.EQL})
+	}
+	if len(tests) == 0 {
+		return nil, nil, "no test of the prefix group"
+	}
+	// explore from the tests themselves so that the phis of the blocks behind them are evaluated on the taken edge
+	kTrueOf := map[ssa.Instruction]int{}
+	for _, t := range tests {
+		kTrueOf[t.iff] = 0
+		if !t.pos {
+			kTrueOf[t.iff] = 1
+		}
+		trueStarts = append(trueStarts, ig.idx[t.iff])
+		b := t.iff.Block()
+		if !isTestBlock[b.Succs[1-kTrueOf[t.iff]]] {
+			falseStarts = append(falseStarts, ig.idx[t.iff])
+		}
+	}
+	onlyTrue := func(term ssa.Instruction, k int) bool {
+		if kt, ok := kTrueOf[term]; ok {
+			return k == kt
+		}
+		return true
+	}
+	onlyFalse := func(term ssa.Instruction, k int) bool {
+		if kt, ok := kTrueOf[term]; ok {
+			return k != kt
+		}
+		return true
+	}
+	rt, rf := blocksOf(ig.reachFromE(trueStarts, nil, onlyTrue)), blocksOf(ig.reachFromE(falseStarts, nil, onlyFalse))
+	longOnly := map[*ssa.BasicBlock]bool{}
+	for b := range rt {
+		if !rf[b] && !isTestBlock[b] {
+			longOnly[b] = true
+		}
+	}
+	le := regionEntries(longOnly)
+	if len(le) != 1 {
+		return nil, nil, fmt.Sprintf("%d entry block(s) for the long-option code", len(le))
+	}
+	// mode parameter
+	var mode *ssa.Parameter
+	for _, p := range fn.Params {
+		if typeString(p.Type()) == "getoptions.Mode" {
+			mode = p
+		}
+	}
+	if mode == nil {
+		return le[0], nil, "no Mode parameter"
+	}
+	reachMode := func(name string) map[*ssa.BasicBlock]bool {
+		c, _ := w.Obj("getoptions", name).(*types.Const)
+		if c == nil {
+			return nil
+		}
+		return blocksOf(ig.reachAssuming(triEnv{mode: vsVal{c: c.Val()}}, nil))
+	}
+	rn, rb, rs := reachMode("Normal"), reachMode("Bundling"), reachMode("SingleDash")
+	if rn == nil || rb == nil || rs == nil {
+		return le[0], nil, "mode constants not found"
+	}
+	normalOnly := map[*ssa.BasicBlock]bool{}
+	for b := range rn {
+		if !rb[b] && !rs[b] {
+			normalOnly[b] = true
+		}
+	}
+	ne := regionEntries(normalOnly)
+	if len(ne) != 1 {
+		return le[0], nil, fmt.Sprintf("%d entry block(s) for the Normal-mode code", len(ne))
+	}
+	return le[0], ne[0], ""
 }
 
 func rC07Units(w *World, r *Report) {
